@@ -16,7 +16,7 @@ from vlib import containers as C
 from vlib import gen, kf, lockstep, mgrmon
 from vlib import programs as P
 from vlib.shadow import Discard, Shadow
-from vlib.values import canon, enc
+from vlib.values import canon, enc, zero_signs
 
 ID = "C20"
 LEVEL = "exploration"
@@ -52,6 +52,10 @@ def contents(runner):
     return sorted((k, canon(v)) for k, v in runner.contents().items())
 
 
+def zero_sign_map(runner):
+    return sorted((k, zero_signs(v)) for k, v in runner.contents().items() if zero_signs(v).strip(",|"))
+
+
 def history_program(rng, counters):
     """Returns (program description, transcript, run-order digest, flagged, nontrivial)."""
     hg = gen.HistoryGen(rng, layered=True, depth=rng.choice([2, 3, 4]), profile="safe",
@@ -61,6 +65,7 @@ def history_program(rng, counters):
     tr = []
     runs = []
     ops = []
+    signs = []
     partial = False
     for _ in range(rng.randrange(6, 28)):
         op, exp = hg.next_op()
@@ -78,6 +83,7 @@ def history_program(rng, counters):
         runs.append([str(e[1]) for e in C.EVENTS if e[0] == "run"])
         counters["history_steps_transcribed"] = counters.get("history_steps_transcribed", 0) + 1
         tr.append([op[0], out, None if partial else contents(runner)])
+        signs.append(zero_sign_map(runner))
     try:
         dm = runner.mgr.dump()
     except Exception as exc:
@@ -98,7 +104,7 @@ def history_program(rng, counters):
         except Exception as exc:
             tr.append(["pickle", "E:" + type(exc).__name__])
     flagged = mgrmon.has_structural_cycle(runner.mgr)
-    return [hg.world, ops], tr, digest(runs), flagged, len(hg.shadow.defs) >= 3
+    return [hg.world, ops], tr, digest(runs) + ":" + digest(signs), flagged, len(hg.shadow.defs) >= 3
 
 
 def term_program(rng, counters):
@@ -248,8 +254,11 @@ def merge(results, tier, seed):
                 i, [cfg(s) for s, p in row if p[2] != row[0][1][2]][:3])})
             continue
         out["counters"]["programs_compared"] = out["counters"].get("programs_compared", 0) + 1
-        if len({p[4] for s, p in row if s["mode"] == row[0][0]["mode"]}) > 1:
+        if len({str(p[4]).split(":")[0] for s, p in row if s["mode"] == row[0][0]["mode"]}) > 1:
             differing_runorders += 1
+        if len({str(p[4]).split(":")[-1] for s, p in row}) > 1 and len({p[3] for _, p in row}) == 1:
+            out["counters"]["programs_differing_only_in_the_sign_of_a_zero"] = \
+                out["counters"].get("programs_differing_only_in_the_sign_of_a_zero", 0) + 1
         if len({p[3] for _, p in row}) > 1:
             flagged = any(p[5] for _, p in row)
             if flagged and kf.is_open("KF1", ID):
